@@ -256,6 +256,14 @@ class TDConfig:
     def bounded_inner(self):
         return 'bounded' in self.inner
 
+    def index_bounds(self):
+        """The bounds handed to the model-index proposal: the integers (kmin, kmax), or -- in every other
+        configuration with kmin < kmax -- non-integer floats that the class documents it rounds outward
+        to exactly those integers (floor of the lower, ceil of the upper bound)."""
+        if self.kmax > self.kmin and self.inner_seed % 2 == 1:
+            return (self.kmin + 0.5, self.kmax - 0.5)
+        return (self.kmin, self.kmax)
+
     def birth_params(self, i):
         """(means, stds) of component i's normal / log-normal birth: fixed by the configuration,
         different for every component and parameter; one configuration in three keeps the unit values."""
@@ -298,11 +306,11 @@ class TDConfig:
             # the only way to reach the symmetric branch of the Hastings-term logic
             mp = cls(['k'], cov=[self.index_std ** 2], **kw)
         elif self.model_prop == 'bounded_discrete':
-            mp = cls(['k'], {'k': (self.kmin, self.kmax)}, cov=[self.index_std ** 2], **kw)
+            mp = cls(['k'], {'k': self.index_bounds()}, cov=[self.index_std ** 2], **kw)
         elif self.model_prop == 'ss_adaptive_bounded_discrete':
-            mp = cls(['k'], {'k': (self.kmin, self.kmax)}, cov=[self.index_std ** 2], **kw)
+            mp = cls(['k'], {'k': self.index_bounds()}, cov=[self.index_std ** 2], **kw)
         else:
-            mp = cls(['k'], {'k': (self.kmin, self.kmax)}, self.window, **kw)
+            mp = cls(['k'], {'k': self.index_bounds()}, self.window, **kw)
         td = P.NestedTransdimensional(self.td_params, mp, inner, births)
         props = [td]
         if self.extra == 'normal':
